@@ -4,7 +4,7 @@
    socket accepted, accept schedule k_sched, ghost trace k_trace of every (gather buffer, eof) handed to
    format_output); sent c = bytes on the wire ++ pending_output_; stream f t = the ideal concatenation of
    format_output over a trace; tr c = bytes the device asked the connection to write. *)
-From CppcmsV Require Import Base.Tac Base.CSem C03.Defs C03.Proofs C03.Proofs2 C03.Proofs3 C03.Proofs4 C03.Proofs5 C03.Proofs6 C03.Proofs7 C03.Proofs8 C03.Proofs9 C03.Proofs10 C03.Proofs11 C03.Proofs12 C03.Proofs13 C03.GzipDefs C03.ProofsGzip C03.ProofsHdr C03.Proofs14 C03.Link gen.Gen_C03 gen.Gen_C03_fcgi gen.Gen_C03_sock.
+From CppcmsV Require Import Base.Tac Base.CSem C03.Defs C03.Proofs C03.Proofs2 C03.Proofs3 C03.Proofs4 C03.Proofs5 C03.Proofs6 C03.Proofs7 C03.Proofs8 C03.Proofs9 C03.Proofs10 C03.Proofs11 C03.Proofs12 C03.Proofs13 C03.GzipDefs C03.ProofsGzip C03.ProofsHdr C03.Proofs14 C03.ProofsCb C03.Link gen.Gen_C03 gen.Gen_C03_fcgi gen.Gen_C03_sock gen.Gen_C03_copybuf.
 Local Open Scope N_scope.
 
 (* ------------------------------------------------------------------------------------------------ 1. pending_conservation
@@ -262,6 +262,26 @@ Print Assumptions cache_copy_exact_put.
 Theorem cache_copy_exact_flush : forall y d c, c_all (fst (fst (cpy_sync y d c))) = c_all y.
 Proof. exact cpy_sync_all. Qed.
 Print Assumptions cache_copy_exact_flush.
+(* copy_buf modelled EXACTLY (Defs.v cbuf: buffer_ as a vector with its size, put window pbase/pptr/epptr as offsets, zero
+   fill of resize, getstr length = buffer_.size() - (epptr - pptr)); run_request returns cb_page = getstr after close.
+   (1) the window invariant the code relies on -- after every overflow the put window ends at buffer_.size() -- holds
+   after any sequence of write / put / flush of ANY total size (all doubling steps);
+   (2) getstr returns exactly the concatenation of everything written. *)
+Theorem copy_buf_window_invariant : forall ops ch, window_ok (fst (cb_overflow (cb_run cb0 ops) ch)).
+Proof. exact cb_window_invariant. Qed.
+Print Assumptions copy_buf_window_invariant.
+Theorem copy_buf_getstr_exact : forall ops, cb_page ops = concat (map obytes ops).
+Proof. exact cb_page_exact. Qed.
+Print Assumptions copy_buf_getstr_exact.
+(* non-vacuity: 700 bytes in three writes, a put and a flush: the vector doubles 128 -> 256 -> 512 -> 1024, the window ends at
+   1024, the write pointer is at 701, getstr returns the 701 bytes; and the three growth expressions at a large size *)
+Example copy_buf_nonvacuous :
+  let ops := [OWrite (repeat 7 100); OPut [9]; OWrite (repeat 8 300); OFlush; OWrite (repeat 6 300)] in
+  let b := fst (cb_overflow (cb_run cb0 ops) None) in
+  (cb_bsize b =? 1024) && (cb_epptr b =? 1024) && (cb_pptr b =? 701) && (cb_pbase b =? 701) &&
+  eqb_bytes (cb_page ops) (repeat 7 100 ++ [9] ++ repeat 8 300 ++ repeat 6 300) = true /\
+  (cb_grow_resize 131072, cb_grow_base 131072, cb_grow_end 131072) = (262144, 131072, 262144).
+Proof. vm_compute. split; reflexivity. Qed.
 (* raw io modes are not modelled: oracle only.  gzip: section 5b below. *)
 Example cache_copy_nonvacuous :
   let c := new_conn Scgi true false 1 [] [] [] [] in
@@ -672,6 +692,25 @@ Print Assumptions tie_next_size.
 Theorem tie_fastcgi_max_record : g_max_packet_len = Z.of_N max_packet_len.
 Proof. exact link_max_packet_len. Qed.
 Print Assumptions tie_fastcgi_max_record.
+(* details::copy_buf: initial size, resize argument and setp arguments of the growth branch of overflow(), length computed by
+   getstr(std::string&) and the arguments of its assign -- cut out of the current source text by checks/C03.py (copybuf_tu),
+   translated by cxx2v -- are the expressions of the exact model *)
+Theorem tie_copy_buf_growth : forall size, size < 2 ^ 62 ->
+  g_cb_grow_resize (Z.of_N size) = Z.of_N (cb_grow_resize size) /\
+  g_cb_grow_base (Z.of_N size) = Z.of_N (cb_grow_base size) /\
+  g_cb_grow_end (Z.of_N size) = Z.of_N (cb_grow_end size).
+Proof. exact link_cb_grow. Qed.
+Print Assumptions tie_copy_buf_growth.
+Theorem tie_copy_buf_initial_size : g_cb_init = Z.of_N CB_INIT.
+Proof. exact link_cb_init. Qed.
+Print Assumptions tie_copy_buf_initial_size.
+Theorem tie_copy_buf_getstr : forall bsize ep pp, pp <= ep -> ep <= bsize -> bsize < 2 ^ 62 ->
+  g_cb_getstr_n (Z.of_N bsize) (Z.of_N ep) (Z.of_N pp) = Z.of_N (cb_getstr_n bsize ep pp).
+Proof. exact link_cb_getstr_n. Qed.
+Print Assumptions tie_copy_buf_getstr.
+Theorem tie_copy_buf_getstr_assign : forall n bsize, g_cb_getstr_off n bsize = 0%Z /\ g_cb_getstr_len n bsize = n.
+Proof. exact link_cb_getstr_assign. Qed.
+Print Assumptions tie_copy_buf_getstr_assign.
 Theorem tie_socket_max_iovec : g_max_vec_size = Z.of_nat max_vec.
 Proof. exact link_max_vec_size. Qed.
 Print Assumptions tie_socket_max_iovec.
